@@ -1,7 +1,8 @@
 CONSTANTS
   MaxSlot = 5
-  MaxFiles = 4
+  MaxFiles = 5
   MaxPerChunk = 3
+  MaxEmpty = 2
   DBs <- GenDBs
   Points <- GenPoints
 INIT Init
